@@ -30,11 +30,14 @@ type controllingSelector struct {
 	agent         *Agent
 	nominatedPair *CandidatePair
 	log           logging.LeveledLogger
+	// For renomination: highest nomination value whose success response was processed.
+	lastAckedNomination *uint32
 }
 
 func (s *controllingSelector) Start() {
 	s.startTime = time.Now()
 	s.nominatedPair = nil
+	s.lastAckedNomination = nil
 }
 
 func (s *controllingSelector) isNominatable(c Candidate) bool {
@@ -204,9 +207,14 @@ func (s *controllingSelector) HandleSuccessResponse(
 		// If this is a renomination request (has nomination value), always update the selected pair
 		// If it's a standard nomination (no value), only set if no pair is selected yet
 		if pendingRequest.nominationValue != nil {
-			s.log.Infof("Renomination success response received for pair %s (nomination value: %d), switching to this pair",
-				pair, *pendingRequest.nominationValue)
-			s.agent.setSelectedPair(pair)
+			// Responses can arrive out of order: the latest nomination wins, so the response
+			// to an older renomination must not move the selection back.
+			if s.lastAckedNomination == nil || *pendingRequest.nominationValue >= *s.lastAckedNomination {
+				s.log.Infof("Renomination success response received for pair %s (nomination value: %d), switching to this pair",
+					pair, *pendingRequest.nominationValue)
+				s.lastAckedNomination = pendingRequest.nominationValue
+				s.agent.setSelectedPair(pair)
+			}
 		} else if selectedPair == nil {
 			s.agent.setSelectedPair(pair)
 		}
